@@ -17,3 +17,8 @@ func (s *DialerSet) VerifC14Tag(d *dialer.Dialer) (string, bool) {
 
 // the annotations a group holds, aligned with Dialers
 func (g *DialerGroup) VerifC14Annotations() []*dialer.Annotation { return g.dialersAnnotations }
+
+// the alive sets of the group's current selection state (all nil under `fixed`)
+func (g *DialerGroup) VerifC14AliveSets() [8]*dialer.AliveDialerSet {
+	return g.currentSelectionState().aliveDialerSets
+}
